@@ -392,7 +392,16 @@ def rule_args(ctx):
     ctx.floor("R1", "calls to workspace functions with named parameters", n, 300)
 
 
+def rule_endpoints(ctx):
+    """R1: endpoints reported anywhere in the workspace pair address and port of the same side; analyzers see the IP payload"""
+    from . import _endpoints as E
+    allc = ("huginn_net_tcp", "huginn_net_http", "huginn_net_tls", "huginn_net")
+    E.ipport_pairing(ctx, ctx.program, "R1", allc)
+    E.tcp_from_payload(ctx, ctx.program, "R2", allc)
+
+
 def run(ctx):
+    rule_endpoints(ctx)
     rule_coupling(ctx)
     rule_args(ctx)
     rule_R1(ctx)
